@@ -11,6 +11,7 @@ from . import core
 from . import formula as F
 from .values import enc
 
+PROBE = 'ZZ77+SUM(ZY1:ZZ2)+TRUE+ABS(1)'
 SETPOOL = [[], [None], [0], [False], [''], [5], [5, None], [None, 0], [5, 0], ['', False, None], [[1, 2]], [2.5]]
 
 
@@ -19,8 +20,18 @@ def observe(lib, cases):
     for c in cases:
         h = F.Harnessed(lib, c['env'])
         text = F.render(c['ast'])
+        if c.get('nest'):
+            # every listener, after handing its values to the setter, evaluates another formula on the same
+            # parser (a sheet following a formula cell, a validation rule): "whatever the listeners do"
+            def nested(hh, payload):
+                saved, hh.hooks = hh.hooks, {}
+                try:
+                    hh.parse(PROBE)
+                finally:
+                    hh.hooks = saved
+            h.hooks = {k: nested for k in ('cell:post', 'range:post', 'var:post', 'fn:post')}
         o = h.parse(text)
-        o.update({'id': len(obs) + 1, 'ast': c['ast'], 'env': c['env'], 'formula': text,
+        o.update({'id': len(obs) + 1, 'ast': c['ast'], 'env': c['env'], 'formula': text, 'nest': bool(c.get('nest')),
                   'checks': ['value', 'events', 'calls']})
         obs.append(o)
     return obs
@@ -46,8 +57,14 @@ def rand_ref(rng):
     k = rng.random()
     if k < 0.4:
         return F.cell(rand_label(rng))
-    if k < 0.8:
+    if k < 0.7:
         return F.rng(rand_label(rng), rand_label(rng))
+    if k < 0.8:
+        # one-cell and one-row/one-column ranges: corners that coincide, written alike or not
+        a = rand_label(rng)
+        plain = a.replace('$', '')
+        b = rng.choice([a, a.lower(), a.upper(), plain, '$' + plain if not plain.startswith('$') else plain])
+        return F.rng(a, b)
     return F.var(rng.choice(['va', 'vb', 'some_name', 'x_1']))
 
 
@@ -108,10 +125,10 @@ def main(tier, replay=None):
     consts = {'Builtins': bconst}
     run.rule = ('one observation = one formula tree over cell/range/variable/call references evaluated with '
                 'recording listeners; distinct by (tree, environment); non-trivial = at least one reference')
-    run.assumptions = ['listeners return normally', 'labels have positive rows without leading zeros']
+    run.assumptions = ['listeners return normally (a third of them after evaluating another formula on the same parser)', 'labels have positive rows without leading zeros']
     if replay:
         c = json.load(open(replay))['case']
-        obs = observe(lib, [{'ast': c['ast'], 'env': c['env']}])
+        obs = observe(lib, [{'ast': c['ast'], 'env': c['env'], 'nest': c.get('nest')}])
         v = core.validate_obs(run, 'Trace_Eval', obs, 'replay', consts)
         core.tally(run, obs, v, 'c10')
         return run.finish()
@@ -126,7 +143,10 @@ def main(tier, replay=None):
     run.extra['tlc_cases'] = len(cases)
     rng = random.Random(run.seed)
     cases += [rand_case(rng) for _ in range(4000 if quick else 80000)]
+    for i, c in enumerate(cases):
+        c['nest'] = i % 3 == 1
     obs = observe(lib, cases)
+    run.extra['with_nested_evaluation_in_listeners'] = sum(1 for o in obs if o['nest'])
     CH = 25000
     for k in range(0, len(obs), CH):
         part = obs[k:k + CH]
